@@ -3,9 +3,31 @@ from props import P
 P("C10",
   title="Direct connections deliver exactly once, intact, in order",
   design_ref="DESIGN.md §3 C10",
-  technique="Coq proof + exact model/impl correspondence by vm_compute",
-  level_text="placeholder",
-  level_note="placeholder",
-  assumptions=[],
-  trusted=[],
+  technique="Coq proof (a tick is a labelled sequence of head-to-tail moves; transfer law by induction over moves, schedule-level "
+            "law by induction over arbitrary action histories; progress by an invariant of the round-robin loop) + exact "
+            "model/impl correspondence by vm_compute",
+  level_text="Lib/Conn.v models middleware.Tick/forwardMany over Lib/Port.v ports: plug-order port list, name->index map (last "
+             "plug wins), round-robin cursor, head-of-line blocking on CanDeliver, Deliver before RetrieveOutgoing, panic on an "
+             "unplugged destination, callbacks logged in order. c10_tick_transfer: every tick is a sequence of moves (src port, dst "
+             "port, msg); each goes to the port named by Dst; every port's incoming buffer grows by exactly the messages moved to it "
+             "and its outgoing buffer loses exactly the messages moved from it, from the head, in order, unmodified. "
+             "c10_conservation_order / c10_per_source_fifo: for EVERY schedule of owner sends (when CanSend), owner retrievals (or "
+             "stalls) and connection ticks, from any state: sent = delivered ++ still-outgoing per source and delivered = retrieved "
+             "++ still-incoming per destination, as ordered lists (so: at most once, exactly once unless still buffered, intact, "
+             "right port only, per-source FIFO, backpressure only delays). c10_progress: after a tick no port has a deliverable "
+             "head left (a deliverable head is delivered in that tick) and the cursor advances by one mod n.",
+  level_note="Trusted: Coq kernel + vm_compute; the Go harness (real DirectConnection + real ports, scripted sender/receiver "
+             "TickingComponents on the real serial engine with the action log taken in real order through engine/port hooks, and "
+             "direct Send/RetrieveIncoming/conn.Tick() schedules); the hand-written tick model, tied by exact equality of every "
+             "send outcome, retrieved message, per-tick delivery log, per-port snapshot and cursor. holds_on is an independent "
+             "trace predicate (right port, no duplicate, per-source / per-destination prefix order, counts = final buffer sizes); "
+             "no link theorem between check_case and holds_on is proved for this property.",
+  assumptions=["ports plugged into one connection have distinct names (the model keeps Go's 'last PlugIn wins' map semantics, the "
+               "harness never plugs duplicates)",
+               "message identities are unique per run (used by holds_on to read 'exactly once' off the logs)",
+               "the schedule-level theorems treat component behaviour as arbitrary: any interleaving of sends, retrievals and "
+               "ticks; liveness of tick scheduling is C09's subject (known finding F-C09-1)"],
+  quick_shards=8,
+  trusted=["modelled, not verified: noc/directconnection/comp.go (PlugIn order / portMap, middleware.Tick, forwardMany), "
+           "messaging/port.go via Lib/Port.v"],
   )
